@@ -463,4 +463,35 @@ def BFUEL : Nat := 2
 
 def prepareBundled (w : World) (spec : Spec) (fs : FS) : POut Bool := bundledLoop w spec BFUEL fs
 
+/-! ## DefaultTrackPreparator.prepare_docs and loader.set_absolute_data_path
+
+`loader.data_dir` gives one directory (track repository: the corpus directory) or two (`--track-path`: the track
+directory first, the corpus directory second).  Each directory is a file system of its own. -/
+
+structure DOut where
+  res : Res Unit
+  track : FS          -- the track directory afterwards
+  corpus : FS         -- the corpus directory afterwards
+
+/-- `DefaultTrackPreparator.prepare_docs` for one bulk document set -/
+def prepareDocs (w : World) (spec : Spec) (twoRoots : Bool) (fsT fsC : FS) (plan : List Attempt) : DOut :=
+  if !twoRoots then
+    let r := prepare w spec fsC plan                       -- prepare_document_set(document_set, data_root[0])
+    ⟨r.res, fsT, r.fs⟩
+  else
+    let b := prepareBundled w spec fsT                     -- prepare_bundled_document_set(document_set, data_root[0])
+    match b.res with
+    | .done true => ⟨.done (), b.fs, fsC⟩
+    | .done false =>
+      let r := prepare w spec fsC plan                     -- fall back: prepare_document_set(document_set, data_root[1])
+      ⟨r.res, b.fs, r.fs⟩
+    | .raised e => ⟨.raised e, b.fs, fsC⟩                  -- a DataError of the bundled attempt is not caught
+    | .outOfFuel => ⟨.outOfFuel, b.fs, fsC⟩
+
+/-- `set_absolute_data_path` / `first_existing`: the directory whose document file the challenge will read -/
+def resolveDoc (twoRoots : Bool) (fsT fsC : FS) : Option FS :=
+  if twoRoots && fsT.doc.isSome then some fsT
+  else if fsC.doc.isSome then some fsC
+  else none
+
 end Corpus
